@@ -77,6 +77,9 @@ def run_hostile(pid, tier, seed, level_rule):
         rq, mq = quake_text(pid, tier, w, v)
         reps += rq
         mc += mq
+        rq, mq = mc_text(pid, tier, w, v)
+        reps += rq
+        mc += mq
     nviol, _ = v.finish()
     cov = std_cov(st + mc + [g], reps, {"rule": level_rule, "exhaustive": False}, validated=validated)
     cov["states"] += tstats["states"]
